@@ -196,14 +196,10 @@ func (c *Canary) knockDetector(ctx context.Context) {
 					return
 				}
 
-				// we have two timeouts, one to send notifications,
-				// one to remove the knock. This will detect portscans
-				// with a longer interval
-
-				// TODO(): make duration configurable
-				if k.Last.Add(time.Second * 60).After(now) {
-					reported = append(reported, k)
-				}
+				// a group that has been reported is done: one that stays in the set is
+				// reported again at every tick (that happened to every group first
+				// reported more than 60 seconds after its last knock)
+				reported = append(reported, k)
 
 				ports := make([]string, k.Knocks.Count())
 
